@@ -292,7 +292,7 @@ def _join(combo: Any) -> List[str]:
 
 
 def floors(tier: str) -> Dict[str, int]:
-    return {'paths': 3000, 'status:200': 50, 'status:404': 1000, 'nontrivial_paths': 1000, 'open_events': 1000,
+    return {'paths': 3000, 'status:200': 40, 'status:404': 1000, 'nontrivial_paths': 1000, 'open_events': 1000,
             'query_variants': 50, 'distinct:path_classes': 10}
 
 
